@@ -419,6 +419,8 @@ pub fn run_plan(plan: &mut Plan, mut gen: Option<&mut Gen>, out: &mut Outp) {
             continue;
         }
         let before = bs.as_ref().map(|s| hexs(s.as_bytes())).unwrap_or("none".into());
+        // C18: capacity and buffer address before a growing call
+        let cap_ptr_before: Option<(usize, usize)> = bs.as_ref().map(|s| (s.capacity(), s.as_ptr() as usize));
         // neighbours: one block allocated before the constructor, one after
         let pre: Option<&[u8]> = if op.is_ctor() { Some(&*bump.alloc_slice_fill_copy(24, 0xA5u8)) } else { None };
         let (cb, sb_) = (Cell::new(0usize), RefCell::new(Vec::<char>::new()));
@@ -470,6 +472,15 @@ pub fn run_plan(plan: &mut Plan, mut gen: Option<&mut Gen>, out: &mut Outp) {
             }
             if cap < len || bytes.len() != len {
                 fail("C14", "cap-lt-len", format!("len={} cap={}", len, cap));
+            }
+            // C18: a string whose capacity already covers the result is neither reallocated nor moved
+            let grows_in_place = matches!(op, Op::Push(_) | Op::PushStr(_) | Op::Insert(..) | Op::InsertStr(..) | Op::ExtendChars { .. }
+                | Op::ExtendStrs { .. } | Op::Write { .. } | Op::Format { .. } | Op::Reserve(_));
+            if let (true, R::Ok(_), Some((cap0, ptr0))) = (grows_in_place, &rb, cap_ptr_before) {
+                let need = if let Op::Reserve(n) = &op { len.saturating_add(*n) } else { len };
+                if need <= cap0 && (cap != cap0 || s.as_ptr() as usize != ptr0) {
+                    fail("C18", "string-moved-within-capacity", format!("len={} cap_before={} cap_after={} moved={}", len, cap0, cap, (s.as_ptr() as usize != ptr0) as u8));
+                }
             }
             if let (Op::Reserve(n), R::Ok(_)) = (&op, &rb) {
                 if cap < len.wrapping_add(*n) {
